@@ -24,13 +24,15 @@
    (wrap32).  C02_wrap_transfer: for coordinates in [0, M], M*M < 2^31 (M <= 46340, sharp) the
    as-written per-label kernel equals the exact one, so it is correct there (C02_hull_label_w_correct);
    C02_convex_wrap_refuted: above the bound it loses an extreme point.  The batch-level equality of the
-   two models inside the bound is not proved (it needs the walk invariant again); it is tested on every
-   run (the correspondence model for convex_hull_ijv IS the as-written one). *)
+   two models inside the bound is C02_batch_wrap_transfer (walk invariant: rows sorted by (v, j), in the
+   box, out <= pix; the overwrite branch of the as-written walk is dead by C02_hull_no_overflow), so the
+   correspondence model for convex_hull_ijv (the as-written one) meets BatchSpec there
+   (C02_convex_hull_ijv_w_correct). *)
 From Coq Require Import ZArith List Bool Permutation.
 From Centro Require Import Base.Sx Model.Hull Model.HullW Spec.HullSpec
   Proofs.HullEmit Proofs.HullGeom Proofs.HullPerm Proofs.HullBatch Proofs.HullTop
   Proofs.HullOutline Proofs.HullUnique Proofs.HullBelow Proofs.HullAbove Proofs.HullCorrect
-  Proofs.HullImage Proofs.HullWrites Proofs.HullGuard Proofs.HullStrict Proofs.HullPoly Proofs.HullRotation Proofs.HullWrap Proofs.HullSweep Proofs.HullSweep44 Proofs.HullSweep34 Proofs.HullSweep53.
+  Proofs.HullImage Proofs.HullWrites Proofs.HullGuard Proofs.HullStrict Proofs.HullPoly Proofs.HullRotation Proofs.HullWrap Proofs.HullWrapBatch Proofs.HullSweep Proofs.HullSweep44 Proofs.HullSweep34 Proofs.HullSweep53.
 Import ListNotations.
 Open Scope Z_scope.
 
@@ -284,6 +286,21 @@ Theorem C02_hull_label_w_correct : forall M m pts slack, M * M < 2147483648 -> (
   label_ok m pts -> 0 <= slack -> HullSpec pts (hull_label_w m pts slack).
 Proof. exact hull_label_w_correct. Qed.
 Print Assumptions C02_hull_label_w_correct.
+
+(* the WHOLE batch kernel as written (wrapped turn test, wrapped sentinel max_i + 1, the one-row overwrite an
+   overflowing label would cause) equals the exact model inside the bound, for every request list *)
+Theorem C02_batch_wrap_transfer : forall M ijv indexes, M * M < 2147483648 ->
+  (forall x, In x ijv -> inbox M (r_pt x)) ->
+  convex_hull_ijv_w ijv indexes = convex_hull_ijv ijv indexes.
+Proof. exact convex_hull_ijv_w_exact. Qed.
+Print Assumptions C02_batch_wrap_transfer.
+
+Theorem C02_convex_hull_ijv_w_correct : forall M ijv indexes, M * M < 2147483648 ->
+  (forall x, In x ijv -> inbox M (r_pt x)) -> NoDup indexes ->
+  let res := fst (convex_hull_ijv_w ijv indexes) in
+  BatchSpec ijv indexes (rows_of res) (counts_of res).
+Proof. exact convex_hull_ijv_w_correct. Qed.
+Print Assumptions C02_convex_hull_ijv_w_correct.
 
 (* beyond the bound the kernel as written violates the property (F22) *)
 Theorem C02_convex_wrap_refuted : exists m pts,
